@@ -893,13 +893,21 @@ def desugar_iter_mut(toks, log):
                 j += 1
             if ob is not None and in_i is not None:
                 recv = norm(text(toks[in_i + 1:ob]))
-                if recv.endswith('.iter_mut()'):
-                    expr = text(toks[in_i + 1:ob]).strip()[:-len('.iter_mut()')].strip()
+                adapter = None
+                for ad in ('.iter_mut()', '.values_mut()', '.values()'):
+                    if recv.endswith(ad):
+                        adapter = ad
+                if adapter is not None:
+                    raw = text(toks[in_i + 1:ob]).strip()
+                    expr = raw[:raw.rindex('.' + adapter[1:-2].split('(')[0])].strip()
                     pat = text(toks[k + 1:in_i]).strip()
                     N = ordinal
                     head = '{ let mut __im%d: usize = 0;\nwhile __im%d < %s.len() ' % (N, N, expr)
-                    inner = ' let %s = &mut %s[__im%d]; __im%d = __im%d + 1;' % (pat, expr, N, N, N)
-                    log.append(('R29', 'for %s in %s.iter_mut() desugared to an index loop (loop #%d)' % (pat, expr, N), t.line))
+                    # R29: a Vec's elements by index; R29b: a map's values in ITS iteration order -- value_mut_at / value_at are the stand-ins for the
+                    # N-th step of ValuesMut / Values (unit prelude: the order is fixed, visits every key once)
+                    elem = {'.iter_mut()': '&mut %s[__im%d]' % (expr, N), '.values_mut()': '%s.value_mut_at(__im%d)' % (expr, N), '.values()': '%s.value_at(__im%d)' % (expr, N)}[adapter]
+                    inner = ' let %s = %s; __im%d = __im%d + 1;' % (pat, elem, N, N)
+                    log.append(('R29', 'for %s in %s%s desugared to an index loop (loop #%d)' % (pat, expr, adapter, N), t.line))
                     cb = match_close(toks, ob)
                     out.append(Tok('subst', head, t.pos, t.line))
                     out.append(toks[ob])
